@@ -84,6 +84,10 @@ type caseA struct {
 	Initial  int   `json:"initial"` // 0: key absent, else the write present before the race
 	Ops      []op  `json:"ops"`
 	Schedule []int `json:"schedule"`
+	// Stall[i] = n > 0: operation i, once it has been released StallAt[i] times, stays parked while any other move is
+	// possible and fewer than n moves were made (a request that pauses at one point while others run to completion)
+	Stall   []int `json:"stall,omitempty"`
+	StallAt []int `json:"stall_at,omitempty"`
 }
 
 // ---- observation ---------------------------------------------------------------------
@@ -340,6 +344,17 @@ func execA(c caseA) (hist []histOp, overlap bool, err error) {
 	s.Filter = func(_ int, point string, args []string) bool {
 		return len(args) >= 2 && args[0] == bkt && args[1] == key
 	}
+	if len(c.Stall) > 0 {
+		s.Starve, s.StarveFrom = map[int]int{}, map[int]int{}
+		for i, n := range c.Stall {
+			if n > 0 && i < len(c.Ops) {
+				s.Starve[i] = n
+				if i < len(c.StallAt) {
+					s.StarveFrom[i] = c.StallAt[i]
+				}
+			}
+		}
+	}
 	verifhook.SetHandler(s.Hook)
 	defer verifhook.SetHandler(nil)
 	type ret struct {
@@ -433,9 +448,9 @@ func caseGen() *rapid.Generator[caseA] {
 		readers := 0
 		for i := 0; i < n; i++ {
 			var o op
-			o.Kind = rapid.SampledFrom([]string{"put", "put", "mpu", "copy", "delete", "get", "get", "getsum", "head"}).Draw(t, "kind")
+			o.Kind = rapid.SampledFrom([]string{"put", "put", "mpu", "copy", "delete", "get", "getsum", "getsum", "head"}).Draw(t, "kind")
 			if i == n-1 && readers == 0 {
-				o.Kind = rapid.SampledFrom([]string{"get", "getsum", "head"}).Draw(t, "reader")
+				o.Kind = rapid.SampledFrom([]string{"getsum", "getsum", "get", "head"}).Draw(t, "reader")
 			}
 			switch o.Kind {
 			case "put", "mpu", "copy":
@@ -452,6 +467,19 @@ func caseGen() *rapid.Generator[caseA] {
 			c.Ops = append(c.Ops, o)
 		}
 		c.Schedule = rapid.SliceOfN(rapid.IntRange(0, 5), 0, 120).Draw(t, "schedule")
+		if rapid.IntRange(0, 2).Draw(t, "stalling") == 0 {
+			// one operation (mostly a reader) pauses after some of its steps until the others are through
+			i := rapid.IntRange(0, n-1).Draw(t, "stall_op")
+			for j, o := range c.Ops {
+				if (o.Kind == "get" || o.Kind == "getsum" || o.Kind == "head") && rapid.Bool().Draw(t, "stall_reader") {
+					i = j
+					break
+				}
+			}
+			c.Stall, c.StallAt = make([]int, n), make([]int, n)
+			c.Stall[i] = 200
+			c.StallAt[i] = rapid.IntRange(0, 18).Draw(t, "stall_at")
+		}
 		return c
 	})
 }
